@@ -325,8 +325,62 @@ IMPLICIT_EXC = ('KeyError', 'IndexError', 'AttributeError', 'TypeError')
 
 
 # --------------------------------------------------------------------------------------- executor
+OBJMAT_ENTRY = None          # set by the contracts: spec function mentry(psd, i, j)
+
+
+class DesugarComprehension(ast.NodeTransformer):
+    """T = np.array([[E for a in ROW] for ROW in SRC])  with an element expression E that calls something (it can raise / has effects)
+    is rewritten, before execution, into the loops it abbreviates (same evaluation order as CPython):
+        __comp0 = []
+        for ROW in SRC:
+            __comp1 = []
+            for a in ROW:
+                __comp1.append(E)
+            __comp0.append(__comp1)
+        T = np.array(__comp0)
+    so that the two loops can be cut by side-car invariants like any other loop."""
+    def visit_Assign(self, node):
+        v = node.value
+        if not (isinstance(v, ast.Call) and isinstance(v.func, ast.Attribute) and v.func.attr == 'array' and isinstance(v.func.value, ast.Name)
+                and v.func.value.id == 'np' and len(v.args) == 1 and not v.keywords and isinstance(v.args[0], ast.ListComp)):
+            return node
+        outer = v.args[0]
+        if not (len(outer.generators) == 1 and not outer.generators[0].ifs and isinstance(outer.elt, ast.ListComp)
+                and len(outer.elt.generators) == 1 and not outer.elt.generators[0].ifs
+                and any(isinstance(x, ast.Call) for x in ast.walk(outer.elt.elt))):
+            return node
+        g1, g2 = outer.generators[0], outer.elt.generators[0]
+        src = '''
+__comp0 = []
+for _a in _b:
+    __comp1 = []
+    for _c in _d:
+        __comp1.append(_e)
+    __comp0.append(__comp1)
+_t = np.array(__comp0)
+'''
+        body = ast.parse(src).body
+        f1 = body[1]
+        f1.target, f1.iter = g1.target, g1.iter
+        f2 = f1.body[1]
+        f2.target, f2.iter = g2.target, g2.iter
+        f2.body[0].value.args = [outer.elt.elt]
+        body[2].targets = node.targets
+        for k, st_ in enumerate(body):
+            for x in ast.walk(st_):
+                x.lineno = getattr(node, 'lineno', 0)
+                x.end_lineno = getattr(node, 'end_lineno', x.lineno)
+                x.col_offset = node.col_offset
+                x.end_col_offset = node.col_offset
+        for x in ast.walk(f2):
+            x.col_offset = node.col_offset + 1           # the inner loop sorts after the outer one (loop ordinals)
+        return body
+
+
 class Engine:
     def __init__(self, fn_ast, contract, registry, qualname, class_name=None, global_types=None, prune=True):
+        import copy
+        fn_ast = DesugarComprehension().visit(copy.deepcopy(fn_ast))
         self.fn, self.c, self.reg, self.qualname, self.class_name = fn_ast, contract, registry, qualname, class_name
         self.global_types = global_types or {}
         self.obls = []
@@ -686,6 +740,9 @@ class Engine:
             base = V(base.ty.a[0], base.t)
         if base.ty.k == 'ref' and e.attr == 'shape':
             return V(TTuple(TInt, TInt), items=[vint(st.heap.fld(None, 'shape0', base.t)), vint(st.heap.fld(None, 'shape1', base.t))])
+        if base.ty.k == 'ref' and base.ty.a[0] == 'PSDMatrix' and e.attr == 'matrix_of_expressions' and OBJMAT_ENTRY is not None:
+            # the numpy object array of a PSDMatrix: entry (i, j) is the spec function mentry(psd, i, j), its shape is the PSDMatrix's
+            return V(T('objmat'), base.t)
         if base.ty.k == 'ref':
             cls = base.ty.a[0]
             return self.read_field(st, cls, e.attr, base.t)
@@ -693,6 +750,11 @@ class Engine:
 
     def read_field(self, st, cls, attr, r):
         ty = field_type(cls, attr)
+        inner = ty.a[0] if ty.k == 'opt' else ty
+        if inner.k == 'arr2':
+            base = field_array_name(cls, attr)
+            dims = [st.heap.A(base + '#%d' % k, z3.ArraySort(I, I))[r] for k in (0, 1)]
+            return V(ty, st.heap.farr(cls, attr)[r], items=dims, none=st.heap.fld_none(cls, attr, r) if ty.k == 'opt' else None)
         if ty.k == 'opt':
             return V(ty, st.heap.fld(cls, attr, r), none=st.heap.fld_none(cls, attr, r))
         return V(ty, st.heap.fld(cls, attr, r))
@@ -700,6 +762,9 @@ class Engine:
     def write_field(self, st, cls, attr, r, v, line):
         ty = field_type(cls, attr)
         base = field_array_name(cls, attr)
+        if (ty.a[0] if ty.k == 'opt' else ty).k == 'arr2' and v.ty.k == 'arr2':
+            for k in (0, 1):
+                st.heap.set(base + '#%d' % k, z3.Store(st.heap.A(base + '#%d' % k, z3.ArraySort(I, I)), r, v.items[k]))
         if ty.k == 'opt':
             inner = ty.a[0]
             if v.ty.k == 'none':
@@ -1008,6 +1073,15 @@ class Engine:
                 return V(TArr1, st.heap.A('eltR')[l.t], items=[st.heap.len(l.t)], py='fresh')
             if et.k == 'int':
                 return V(TArr1i, st.heap.A('eltI')[l.t], items=[st.heap.len(l.t)], py='fresh')
+            if et.k == 'list' and et.a[0].k == 'real':
+                # rows must have one common length (numpy would build a ragged object array / raise otherwise); an empty outer list gives shape (0,)
+                n0 = st.heap.len(l.t)
+                row = lambda i: st.heap.A('eltI')[l.t][i]
+                n1 = st.heap.len(row(z3.IntVal(0)))
+                iq = fresh('iq', I)
+                self.emit('safe.rectangular@%d' % line, st, z3.And(n0 >= 1, z3.ForAll([iq], z3.Implies(z3.And(iq >= 0, iq < n0), st.heap.len(row(iq)) == n1))), line, tag='aux')
+                ii, jj = fresh('i', I), fresh('j', I)
+                return V(TArr2, z3.Lambda([ii, jj], st.heap.A('eltR')[row(ii)][jj]), items=[n0, n1], py='fresh')
             if et.k == 'any':
                 # never appended to: an empty array
                 return V(TArr1, z3.K(I, z3.RealVal(0)), items=[st.heap.len(l.t)], py='fresh')
@@ -1200,6 +1274,8 @@ class Engine:
             st.heap.glob[gname] = fresh_value(self.global_types[gname], gname)
         res = c.fresh_result(self, st, S0, a)
         for lab, f, _tag in c.ensures(S0, st.heap, a, res):
+            if _tag == 'ghost':
+                continue          # stated with a spec function that only has a meaning inside the callee's own proof: callers may not rely on it
             st.pc.append(f)
         return res
 
@@ -1547,6 +1623,11 @@ class Engine:
             else:
                 raise OutOfSubset('range with step at line %d' % s.lineno)
             return dict(kind='range', lo=lo, hi=hi)
+        if k == 'objmat':
+            return dict(kind='range', lo=z3.IntVal(0), hi=st.heap.fld(None, 'shape0', it.t), elem=lambda i, m=it.t: V(T('objrow'), m, items=[i]))
+        if k == 'objrow':
+            return dict(kind='range', lo=z3.IntVal(0), hi=st.heap.fld(None, 'shape1', it.t),
+                        elem=lambda j, m=it.t, i=it.items[0]: V(TRef('Expression'), OBJMAT_ENTRY(m, i, j)))
         if k == 'list':
             return dict(kind='list', l=it, enum=False)
         if k == 'enumerate' and it.items[0].ty.k == 'list':
@@ -1790,7 +1871,7 @@ class Engine:
                 self.assign_to(s.target, V(TTuple(TKey, val.ty), items=[key, val]), st, line)
             return
         if it['kind'] == 'range':
-            self.assign_to(s.target, vint(pos['i']), st, line)
+            self.assign_to(s.target, it['elem'](pos['i']) if 'elem' in it else vint(pos['i']), st, line)
             return
         if it['kind'] == 'list':
             el = self.list_elem(st, it['l'], pos['i'])
